@@ -76,11 +76,19 @@ ChkRecs == { [name |-> n, expr |-> e] : n \in {"", "k1", "k2"}, e \in {"e1", "e2
 AddChkS(S)     == UNION { { With(S, t, [S[t] EXCEPT !.chk = @ \cup {x}]) : x \in ChkRecs \ S[t].chk } : t \in Present(S) }
 DropChkS(S)    == UNION { { With(S, t, [S[t] EXCEPT !.chk = @ \ {x}]) : x \in S[t].chk } : t \in Present(S) }
 ModChkS(S)     == UNION { UNION { { With(S, t, [S[t] EXCEPT !.chk = (@ \ {x}) \cup {y}]) : y \in {z \in ChkRecs : z.name = x.name /\ z # x /\ z.name # ""} } : x \in S[t].chk } : t \in Present(S) }
+\* a named check renamed, same expression (drop + add under another name)
+RenChkS(S)     == UNION { UNION { { With(S, t, [S[t] EXCEPT !.chk = (@ \ {x}) \cup {[x EXCEPT !.name = n]}]) : n \in {"k1", "k2"} \ {x.name} } : x \in {y \in S[t].chk : y.name # ""} } : t \in Present(S) }
 OptionS(S)     == UNION { { With(S, t, [S[t] EXCEPT !.worowid = w, !.strict = s]) : w \in BOOLEAN, s \in BOOLEAN } : t \in Present(S) }
 Succ(S) == { X \in AddTableS(S) \cup DropTableS(S) \cup AddColumnS(S) \cup DropColumnS(S) \cup ModColumnS(S)
                   \cup AddIndexS(S) \cup DropIndexS(S) \cup ModIndexS(S) \cup SetPKS(S)
                   \cup AddFKS(S) \cup DropFKS(S) \cup ModFKS(S)
-                  \cup AddChkS(S) \cup DropChkS(S) \cup ModChkS(S) \cup OptionS(S) : X # S /\ WF(X) }
+                  \cup AddChkS(S) \cup DropChkS(S) \cup ModChkS(S) \cup RenChkS(S) \cup OptionS(S) : X # S /\ WF(X) }
+\* compound edits over two tables: a change that rebuilds t1 together with an in-place change of t2 (and vice versa)
+Rebuilds(S, t) == { X \in DropColumnS(S) \cup ModColumnS(S) \cup SetPKS(S) \cup DropChkS(S) : X[t] # S[t] /\ WF(X) }
+InPlace(S, t)  == { X \in AddIndexS(S) \cup DropIndexS(S) \cup AddColumnS(S) : X[t] # S[t] /\ WF(X) }
+Cross(S) == IF Present(S) # Tn THEN {} ELSE
+              { X \in UNION { { [S EXCEPT !["t1"] = A["t1"], !["t2"] = B["t2"]] : B \in InPlace(S, "t2") } : A \in Rebuilds(S, "t1") }
+                     \cup UNION { { [S EXCEPT !["t2"] = A["t2"], !["t1"] = B["t1"]] : B \in InPlace(S, "t1") } : A \in Rebuilds(S, "t2") } : WF(X) }
 
 \* ---- row semantics of an edit (C05): which column values must survive ----------------------------------
 \* a column survives in table t iff it is stored, present before and after, and has the same type
@@ -95,7 +103,7 @@ Seed1 == [Empty EXCEPT !["t1"] = [Absent EXCEPT !.cols = [c \in Cn |-> IF c = "c
                                     !.pk = <<"a">>, !.idx = {[name |-> "i1", parts |-> <<Part("b", FALSE)>>, unique |-> TRUE, where |-> ""]},
                                     !.chk = {[name |-> "k1", expr |-> "e1"]}]]
 Seed2 == [Seed1 EXCEPT !["t2"] = [Absent EXCEPT !.cols = [c \in Cn |-> IF c = "c" THEN NoCol ELSE [type |-> "INT", null |-> (c = "b"), dflt |-> "none", gen |-> ""]],
-                                    !.pk = <<"a">>, !.fks = {[name |-> "f1", col |-> "b", ref |-> "t1", refcol |-> "a", onupd |-> "NO ACTION", ondel |-> "CASCADE"]}]]
+                                    !.pk = <<"a">>, !.fks = {[name |-> "f1", col |-> "b", ref |-> "t1", refcol |-> "a", onupd |-> "CASCADE", ondel |-> "NO ACTION"]}]]
 Seed3 == [Empty EXCEPT !["t1"] = [Absent EXCEPT !.cols = [c \in Cn |-> IntCol], !.pk = <<"b", "a">>, !.worowid = TRUE,
                                     !.idx = {[name |-> "i1", parts |-> <<Part("a", FALSE), Part("c", TRUE)>>, unique |-> FALSE, where |-> "w1"]},
                                     !.chk = {[name |-> "", expr |-> "e1"], [name |-> "k2", expr |-> "e2"]}]]
